@@ -15,7 +15,10 @@ DocFeatures == {
    "path_level_params_only", "required_undeclared_property", "deepobject_param", "form_body", "multipart_body",
    "security_scheme", "mixed_enum", "nullable_everything", "uncompilable_pattern", "format_and_bounds", "array_param_nonexploded",
    "additional_props_schema", "discriminator_mapping", "no_request_body", "allof_param", "readonly_required",
-   "security_undeclared_scheme", "multiple_of_zero_with_default", "required_param_by_content"}
+   "security_undeclared_scheme", "multiple_of_zero_with_default", "required_param_by_content",
+   "number_array_param_multipleof", "yaml_body"}
+(* the base document always has, besides the operation under test, a path item WITHOUT operations  *)
+(* (summary and shared parameters only): "/bare/{id}"                                              *)
 
 ReqMutations == {
    "method_propfind", "method_lowercase", "method_empty_like", "path_extra_segment", "path_empty_segment", "path_bad_escape",
@@ -26,7 +29,8 @@ ReqMutations == {
    "body_truncated", "body_wrong_type_array", "body_wrong_type_scalar", "body_deep_nesting", "body_huge_number", "body_invalid_utf8",
    "body_empty", "body_null", "body_form_bad_escape", "body_multipart_malformed", "body_missing_required", "body_extra_props",
    "body_trailing_garbage", "body_nil", "security_header_missing",
-   "query_deep_index_negative", "query_deep_index_gap", "query_deep_index_nonnumeric", "zero_values", "query_deep_scalar_for_object"}
+   "query_deep_index_negative", "query_deep_index_gap", "query_deep_index_nonnumeric", "zero_values", "query_deep_scalar_for_object",
+   "query_nan_inf", "body_yaml_nan", "body_json_nan_token", "target_bare_path_get", "target_bare_path_delete", "target_bare_path_brew"}
 
 RespMutations == {
    "status_zero", "status_99", "status_600", "status_999", "status_204_with_body", "resp_header_missing", "resp_header_garbage",
